@@ -25,6 +25,9 @@ EXPLANATION += (
 EXPLANATION += (
     " " + 'R11: in the reference-free walker an operation is matched against the variants that start in the reference it consumes -- [ref_pos, ref_pos + length) for M/=/X/D and only the insertion point for I (read per operator from the definitions of the window end that reach the queueing loop).'
 )
+EXPLANATION += (
+    " " + 'R12: cigar_prefix_length takes the part of an operation beyond the requested reference length back from the query count exactly on the returning paths that added to the query counter (M/=/X), not for a deletion.'
+)
 NOT_DECIDED = "That the edit distances favour the right allele (C19 / value level) and the allele-progress arithmetic of _detect_alleles_match/insertion/deletion."
 ASSUMPTIONS = ["pysam cigartuples use the codes MIDNSHP=X -> 0..8"]
 
@@ -1024,6 +1027,56 @@ def r11(ctx):
     ctx.ob(fi.qual, "queue-window-is-the-consumed-reference", ok, fi.loc(ql), "an operation is matched against the variants that start in the reference it consumes (an insertion: only at the insertion point)" if ok else ("for an I operation the queueing window ends at %s: insertion variants up to length - 1 bases right of an unrelated insertion are compared with that insertion's bases, and a read carrying the reference allele is recorded with the inserted one" % u(be) if ok_other else "the queueing window ends at %s, not at ref_pos + length" % u(be)))
 
 
+def r12(ctx):
+    """cigar_prefix_length answers `how many query bases go with the first n reference bases`.  Where an operation carries the
+    walk past n, the part of it beyond n is taken back from the query count only if the operation consumes query bases (M/=/X);
+    a deletion that runs past n leaves the query count as it is.  Read from the path summaries: on every path that returns
+    inside the loop, with r and q the amounts the path added to the two counters, the returned pair is
+    (n, query_pos + q - (ref_pos + r - n)) if q else (n, query_pos)."""
+    from sa import pathfx
+
+    fi = ctx.func("whatshap.variants.ReadSetReader.cigar_prefix_length")
+    cfg = ctx.cfg(fi)
+    nparam = util.params_of(fi.node)[-1]
+    loops = [n for n in walk_function(fi.node) if isinstance(n, ast.For)]
+    if len(loops) != 1 or not isinstance(loops[0].target, ast.Tuple) or len(loops[0].target.elts) != 2:
+        ctx.ob(fi.qual, "prefix-pair-takes-back-only-consumed-query", None, fi.loc(), "cannot find the loop over (operator, length) in cigar_prefix_length")
+        return
+    L = u(loops[0].target.elts[1])
+    inside = {id(x) for x in ast.walk(loops[0])}
+    try:
+        sums = pathfx.summaries(cfg, opaque=("ref_pos", "query_pos"))
+    except OverflowError:
+        sums = []
+    n_ret, bad, und = 0, None, None
+    for ps in sums:
+        rets = [e_ for e_ in ps.effects if e_[0] == "return" and e_[3] is not None and id(e_[3]) in inside]
+        if len(rets) != 1 or not isinstance(rets[0][1], ast.Tuple) or len(rets[0][1].elts) != 2:
+            continue
+        rn, qn = linear(rets[0][1].elts[0]), linear(rets[0][1].elts[1])
+        er, eq = linear(ps.env["ref_pos"]) if "ref_pos" in ps.env else {"ref_pos": 1}, linear(ps.env["query_pos"]) if "query_pos" in ps.env else {"query_pos": 1}
+        if rn is None or qn is None or er is None or eq is None:
+            und = "cannot read the pair returned at line %s" % getattr(rets[0][3], "lineno", "?")
+            continue
+        clean = lambda d: {k: v for k, v in d.items() if v}
+        r_add, q_add = er.get(L, 0), eq.get(L, 0)
+        if clean(er) != clean({"ref_pos": 1, L: r_add}) or clean(eq) != clean({"query_pos": 1, L: q_add}) or r_add not in (0, 1) or q_add not in (0, 1):
+            und = "cannot read how the counters advance on a returning path"
+            continue
+        if r_add == 0:
+            # stop at a reference skip / no reference consumed: nothing ran past n
+            want = {"query_pos": 1, L: q_add}
+        elif q_add:
+            want = {"query_pos": 1, nparam: 1, "ref_pos": -1}
+        else:
+            want = {"query_pos": 1}
+        n_ret += 1
+        if clean(qn) != clean(want) and bad is None:
+            bad = (ps, "on a path where the operation consumes %s, %s is returned as query length" % ("reference and query" if q_add else "reference only (a deletion)", u(rets[0][1].elts[1])))
+    ok = (False if bad else (None if und or n_ret < 2 else True))
+    ctx.ob(fi.qual, "prefix-pair-takes-back-only-consumed-query", ok, fi.loc(), "the part of an operation beyond the requested reference length is taken back from the query count exactly for operations that consume query bases (%d returning paths)" % n_ret if ok else ("cigar_prefix_length: %s: the query window is shortened by reference bases the read does not have, and the variant's base falls outside the window" % bad[1] if bad else (und or "fewer than two returning paths found in the loop")), cfg.describe_path(bad[0].path) if bad else None)
+
+
 RULES = [
     ("C06.R1", "CIGAR consumption tables of the three walkers vs. SAM", r1),
     ("C06.R2", "unknown operators are rejected", r2),
@@ -1036,7 +1089,8 @@ RULES = [
     ("C06.R9", "reference-free walker passes variants left of ref_pos before queueing", r9),
     ("C06.R10", "memo tables keyed consistently; reads grouped per input file", r10),
     ("C06.R11", "reference-free walker: an operation is matched against the variants starting in the reference it consumes", r11),
+    ("C06.R12", "cigar_prefix_length takes the overshoot back from the query count only for query-consuming operations", r12),
 ]
 # instance floors: about 60% of the instances confirmed by hand on the reference tree -- a rule that suddenly matches far fewer
 # sites fails the run (exit 2); a clean-up that merges two sites into one does not
-FLOORS = {"C06.R1": 16, "C06.R2": 3, "C06.R3": 5, "C06.R4": 7, "C06.R5": 6, "C06.R6": 2, "C06.R7": 2, "C06.R8": 2, "C06.R9": 2, "C06.R10": 3, "C06.R11": 1}
+FLOORS = {"C06.R1": 16, "C06.R2": 3, "C06.R3": 5, "C06.R4": 7, "C06.R5": 6, "C06.R6": 2, "C06.R7": 2, "C06.R8": 2, "C06.R9": 2, "C06.R10": 3, "C06.R11": 1, "C06.R12": 1}
